@@ -17,6 +17,7 @@ import (
 	"reflect"
 	"runtime"
 	"sort"
+	"strings"
 	"strconv"
 	"sync"
 	"sync/atomic"
@@ -179,9 +180,29 @@ func setup(tab0, ptab Tab) *world {
 	w.child = w.parent.NewEnv()
 	w.child.SetExternalLookup(extLookup{}) // knows the value name "ext"; consulted after the scope's own table
 	for i, k := range tab0.K {
+		if isTypeName(k) {
+			w.child.DefineType(k, typeFor(tab0.V[i]))
+			continue
+		}
 		w.child.Define(k, int64(tab0.V[i]))
 	}
 	return w
+}
+
+// Names beginning with "t" live in the scope's TYPE table (DefineType / Type / GetTypeSymbols); the value v stands for a Go type.
+// A scope without types has no type table yet: its first DefineType allocates it.
+func isTypeName(n string) bool { return strings.HasPrefix(n, "t") }
+
+var typeCodes = []interface{}{nil, int64(0), "", 1.5, true, []int64{}, map[string]int64{}, int8(0), uint16(0), float32(0)}
+
+func typeFor(v int) interface{} { return typeCodes[v%len(typeCodes)] }
+func codeOf(t reflect.Type) int {
+	for i, x := range typeCodes {
+		if x != nil && reflect.TypeOf(x) == t {
+			return i
+		}
+	}
+	return -98
 }
 
 type extLookup struct{}
@@ -205,10 +226,20 @@ func (w *world) call(g, i int, o Op, mu *sync.Mutex) Res {
 	e := w.child
 	switch o.Op {
 	case "Define":
+		if isTypeName(o.N) {
+			return errRes(e.DefineType(o.N, typeFor(o.V)))
+		}
 		return errRes(e.Define(o.N, int64(o.V)))
 	case "Set":
 		return errRes(e.Set(o.N, int64(o.V)))
 	case "Get":
+		if isTypeName(o.N) {
+			t, err := e.Type(o.N)
+			if err != nil {
+				return errRes(err)
+			}
+			return Res{K: "val", I: codeOf(t), S: []string{}}
+		}
 		v, err := e.Get(o.N)
 		if err != nil {
 			return errRes(err)
@@ -282,6 +313,14 @@ func tabOf(e *env.Env) Tab {
 		}
 		t.K = append(t.K, k)
 		t.V = append(t.V, int(iv))
+	}
+	tks := e.GetTypeSymbols()
+	sort.Strings(tks)
+	for _, k := range tks {
+		if ty, err := e.Type(k); err == nil {
+			t.K = append(t.K, k)
+			t.V = append(t.V, codeOf(ty))
+		}
 	}
 	return t
 }
